@@ -311,6 +311,52 @@ def rule_driver(ctx):
     ctx.ob(R, fi, fi.node, oks, "SCRAM mechanisms do not use the SCRAM authenticator", text="scram-authenticator-selected")
 
 
+
+def rule_handshake_errors(ctx):
+    R = "handshake-errors"
+    ctx.rep.rule(R, "_do_sasl_handshake: a broker reply that carries an error code (to SaslHandshake, to every SaslAuthenticate) ends the login: "
+                    "on the arm where the code is not NoError the connection is closed and an exception raised -- the normal end of the function "
+                    "(= authenticated) is unreachable from it; the mechanism the client asked for must be among those the broker enabled; a "
+                    "SCRAM mechanism is driven by the SCRAM authenticator")
+    from ..rulekit import atoms_of_test
+    fi = ctx.fn("aiokafka.conn.AIOKafkaConnection._do_sasl_handshake")
+    c = ctx.cfg(fi)
+    codes = [n for n in c.calls(attr="for_code")]
+    ctx.anchor(len(codes) >= 2, "Errors.for_code(...) of the handshake and authenticate replies")
+    bad = {("error_type", "is not", "Errors.NoError"), ("error_type", "!=", "Errors.NoError")}
+    edges = []
+    for t in c.nodes:
+        if t.kind == "test":
+            for m, l in t.succ:
+                lab = l
+                if l == "back":
+                    others = {x for _m, x in t.succ if x in ("T", "F")}
+                    lab = "F" if others == {"T"} else "T" if others == {"F"} else None
+                if lab in ("T", "F") and atoms_of_test(t.ast, lab == "T") & bad:
+                    edges.append((t, m))
+    ctx.ob(R, fi, fi.node, len(edges) >= len(codes), f"{len(codes)} reply codes are read but only {len(edges)} are tested for an error", text="every-code-tested")
+    for t, m in edges:
+        reg = c.reachable([m], exc=False, include_src=True)
+        heads = [h for h in reg if h.kind == "loop"]
+        cl = [n for n in reg if n.kind == "call" and call_attr(n.ast) == "close" and dotted(n.ast.func.value) == "self"]
+        ok = c.exit not in reg and not heads and bool(cl) and any(n.kind == "raise" for n in reg) and not any(n.kind == "await" for n in reg)
+        ctx.ob(R, fi, t, ok, "an error reply of the broker does not end the login (close + raise): authentication can complete although the broker refused it", text="error-reply-ends-login:" + str(codes.index(min(codes, key=lambda x: abs(x.lineno - t.lineno)))))
+    # each code test follows its own reply
+    for cd in codes:
+        ok = any(c.dominates(cd, t) and not any(c.dominates(cd, o) and c.dominates(o, t) for o in codes if o is not cd) for t, _m in edges)
+        ctx.ob(R, fi, cd, ok, "a reply's error code is read but not examined before the next step", text="code-examined:" + unparse(cd.ast)[:50])
+    mech = [t for t in c.nodes if t.kind == "test" and isinstance(t.ast, ast.Compare) and isinstance(t.ast.ops[0], (ast.NotIn, ast.In)) and "enabled_mechanisms" in unparse(t.ast.comparators[0])]
+    ok = len(mech) == 1
+    if ok:
+        lab = "T" if isinstance(mech[0].ast.ops[0], ast.NotIn) else "F"
+        reg = c.reachable([m for m, l in mech[0].succ if l == lab], exc=False, include_src=True)
+        ok = c.exit not in reg and any(n.kind == "raise" for n in reg) and not any(n.kind == "await" for n in reg)
+    ctx.ob(R, fi, fi.node, ok, "a mechanism the broker did not enable is not refused", text="mechanism-enabled")
+    sc = [n for n in c.calls(attr="authenticator_scram")]
+    okm = len(sc) == 1 and any(a[0].startswith("self._sasl_mechanism.startswith('SCRAM-SHA-')") and a[1] == "truthy" for a in __import__("sa.rulekit", fromlist=["must_facts"]).must_facts(c)[sc[0]])
+    ctx.ob(R, fi, fi.node, okm, "the SCRAM authenticator is not selected exactly for the SCRAM-SHA-* mechanisms", text="scram-selected")
+
+
 def run(ctx):
     rep = ctx.rep
     rep.explanation = ("C18 structural clauses of ScramAuthenticator: nonce prefix check dominating all key derivation; the login generator ends only "
@@ -321,4 +367,5 @@ def run(ctx):
     rule_provenance(ctx)
     rule_escaping(ctx)
     rule_driver(ctx)
+    rule_handshake_errors(ctx)
     rep.nd("that a real server accepts the messages (HMAC / PBKDF2 values themselves)")
